@@ -53,6 +53,7 @@ def run(chk: Check, proj: Project) -> None:
     chk.rule("S14", "twin-kind argument agreement on the way from the render to the marker and the cachers: an argument that names one script kind is bound to the parameter of the same kind (js_input_hash -> js_input_hash, never css_input_hash) (generic template, shared with C04-S20)")
     generic.kind_named_args(chk, "S14", proj, w.cg, ["component", "dependencies"], floor=8)
     s13_status_survives_middleware(chk, proj, w)
+    s16_inlined_means_cached(chk, proj)
 
 
 def s8_key_fields(chk: Check, proj: Project, rule: str = "S8") -> None:
@@ -570,6 +571,31 @@ def s11_kind_flow(chk: Check, proj: Project, w, rule: str = "S11") -> None:
             chk.violated(rule, f"dependencies:{q}:{nm_.id}:result-used", dm.loc(nm_), f"`{nm_.id}` receives the {sorted(k)} part of a helper's result and is never read: those scripts are collected but never announced / inserted")
     chk.paths += kf.n_eval
     chk.floor(rule, n, 12)
+
+
+def s16_inlined_means_cached(chk: Check, proj: Project) -> None:
+    chk.rule("S16", "what a document render inlines and marks as LOADED under a script URL is what the endpoint would serve for that URL: the text get_script_tag wraps comes from the cache lookup alone, and a missing entry ends the render with an error - a fallback that takes the text from the class when the entry is gone lets the render succeed and announce `/components/cache/<hash>.js` as loaded while the endpoint (which reads only the cache) answers 404 for it")
+    dm = proj.mod("dependencies")
+    f = dm.func("get_script_tag")
+    chk.analysed(fkey(dm, f))
+    cv = local_from(f, lambda v: isinstance(v, ast.Call) and last_attr(v.func) == "get_script_content")
+    if cv is None:
+        chk.undecided("S16", "dependencies:get_script_tag:text-from-the-cache-only", dm.loc(f), "the local holding the cache lookup's result was not found")
+        return
+    refill = []
+    for st, v in assignments(f, cv):
+        if v is None or (isinstance(v, ast.Call) and last_attr(v.func) == "get_script_content"):
+            continue
+        at = flatten_conj(path_conditions(st))
+        missing = any(pol and isinstance(e, ast.Compare) and norm(e.left) == cv and isinstance(e.ops[0], ast.Is) and isinstance(e.comparators[0], ast.Constant) and e.comparators[0].value is None for e, pol in at) or any((not pol) and norm(e) == cv for e, pol in at)
+        uses_old = any(isinstance(x, ast.Name) and x.id == cv for x in ast.walk(v))
+        if missing or not uses_old:
+            refill.append(st)
+    raises_on_missing = any(any(pol and f"{cv} is None" == norm(e) for e, pol in flatten_conj(path_conditions(r))) for r in ast.walk(f) if isinstance(r, ast.Raise))
+    ok = not refill and raises_on_missing
+    chk.ob("S16", "dependencies:get_script_tag:text-from-the-cache-only", dm.loc(refill[0]) if refill else dm.loc(f), ok,
+           f"`{cv}` is the cache entry (wrapped), and a missing entry raises" if ok else
+           (f"`{short(refill[0])}` fills `{cv}` from somewhere else when the cache has no entry: after an eviction between the component render and the post-processing (render_dependencies=False + middleware, or a cache clear) the document is rendered, the script URL is listed under loadedJsUrls / loadedCssUrls, and a GET of that URL answers 404" if refill else "a missing cache entry does not raise"))
 
 
 def _response_ctor_status(proj: Project, dm, e: ast.AST):
